@@ -15,6 +15,18 @@ claimed={
  'C02':dict(level='exploration',engine='E1-histories',technique='runtime monitoring: executed-command trace per build vs reference model of the caching rules',
    text='The set of commands each build executes (read off an O_APPEND trace written by the commands themselves) is compared with the must-exec / must-not-exec prediction of a reference model across edits, no-op rebuilds, output-path perturbations, quiet command changes (early cut-off), relocated checkouts, perturbed environments, both load_outputs modes and hash algorithms.',
    note='States the documented rules do not fix (output-less dependency changed, cache-disabled leftovers) are classified may-exec and not judged.', ref='4/C02'),
+ 'C03':dict(level='exploration',engine='E2-sched',technique='runtime monitoring: logical-clock log at the walker callback boundary (synctest + race detector) and O_APPEND S/E trace of the real binary, checked offline for order / once / width',
+   text='Start events are checked against end events of every transitive dependency, calls per node are counted, and open [S,E] intervals are counted against num_workers, on the in-process Walker (seeded graph families, latencies incl. zero, GOMAXPROCS 1/2/16, alias nodes) and on the real binary (num_workers 1..8, sleeping commands); commands also record the digests of the dependency outputs they saw.',
+   note='Schedules are sampled by the Go scheduler under stress, not enumerated; width is judged at the command level (the [S,E] interval of a command lies inside its lifetime).', ref='4/C03'),
+ 'C04':dict(level='fault_enumeration',engine='E2-sched',technique='runtime monitoring: testing/synctest deadlock detection + Go race detector + runtime fatal errors over in-process Walker runs',
+   text='dag.Walker runs inside synctest bubbles under -race over seeded graphs with failing subsets, fail-fast on/off, external cancellation, zero/non-zero latencies and delays injected at the registration hook; a run is refuted by a synctest deadlock report, a runtime fatal error, a map-access race report on walker state, or a selected node that is neither completed nor legitimately skipped.',
+   note='Deadlock is decided by the runtime (all goroutines durably blocked), never by elapsed time. Each case runs in a child process batch with its id logged first.', ref='4/C04'),
+ 'C05':dict(level='exploration',engine='E1-histories',technique='runtime monitoring: executed-command trace, exit status, hook event order (walk.failfast vs cmd.attempt) and follow-up builds vs reference model',
+   text='Random failing subsets x failure kinds (exit code, timeout, missing output, failing check) x keep-going/fail-fast: unaffected targets must be built, dependants of failed targets must not run, exit status must be non-zero and name the failed targets, no command may start after the fail-fast cancellation event, and an identical follow-up build must attempt the failed targets again (nothing cached).',
+   note='Fail-fast builds: only the containment rules are judged (which not-yet-started targets still run is schedule-dependent).', ref='4/C05'),
+ 'C13':dict(level='exploration',engine='E1-histories',technique='runtime monitoring: executed-command trace per build vs reference model with taint / no-cache / cache-disabled inputs',
+   text='Histories mixing edits, grog taint, --enable-cache=false builds and no-cache targets at random graph positions: forced targets must execute, a consumed taint must not force again, and dependants of a forced target that reproduced identical outputs must be restored.',
+   note='What a cache-disabled build leaves in the cache is not fixed by the statement: those follow-up decisions are may-exec.', ref='4/C13'),
 }
 na_reason='check under construction in this session: not claimed until its monitor is built and silent on the unchanged tree'
 checks=[]
@@ -28,7 +40,7 @@ m=dict(version=1, setup_cmd='./setup.sh',
   hooks=dict(guard='verif', enable='go build -tags verif (checks build /repo\'s working tree into /verif/.cache/<source-hash>/)',
      baseline_off_cmd="cd /repo && GOPROXY=off go test -json -vet=off -count=1 -timeout 25m ./...",
      source_commits=hook_commits, add_only=True),
-  engines=[dict(name='E1-histories', path='vctl/internal/e1', serves_properties=['C01','C02','C05','C13','C14','C15'], kind_free_text=E1)],
+  engines=[dict(name='E2-sched', path='vctl/internal/e2 + harness/walker', serves_properties=['C03','C04'], kind_free_text='in-process drivers overlaid into the grog module (go test -c -overlay), run in child processes under -race / synctest; offline checkers over their logs'), dict(name='E1-histories', path='vctl/internal/e1', serves_properties=['C01','C02','C05','C13','C14','C15'], kind_free_text=E1)],
   checks=checks, not_applicable=na,
   notes='All checks are runtime monitors over executions of the real code. Known findings: KNOWN_FINDINGS.txt. Design: DESIGN.md.')
 json.dump(m, open(f'{V}/MANIFEST.json','w'), indent=1)
